@@ -22,6 +22,10 @@ models" — the instantiation on the models of the other slices:
 * `Tfl.Categorical.call` = `dot (catSelector n default x) kernel`, a one-hot (or zero) selector.
 In each case the exact difference quotient in kernel entry `j` is the `j`-th coefficient, whatever
 the kernel. The harness additionally ties each real layer's Jacobian to these weights.
+
+The same statements with Mathlib's real analytic derivative (`HasDerivAt` per coordinate, `HasFDerivAt`
+for the whole gradient, and for every continuous real extension of the model) are in
+`Props/C19Deriv.lean`.
 -/
 namespace Tfl.C19
 open Tfl Tfl.Kfl Tfl.Poset
